@@ -156,6 +156,10 @@ pub fn gen_sources(rng: &mut Rng, next: &mut u64, kmin: u64, kmax: u64, max_tile
 			kinds.push("mbtiles");
 		}
 		let mut kind = rng.pick(&kinds).to_string();
+		// every 8th source answers its lookups out of order (default stream on top)
+		if rng.chance(1, 8) && (kind == "mem" || kind == "pmtiles" || kind == "tar") {
+			kind += "^";
+		} else
 		// every 6th source sits behind a TilesConvertReader (flip / swap), so that pipelines are stacked on converters
 		if rng.chance(1, 6) {
 			kind += *rng.pick(&["~10", "~01", "~11", "~00"]);
@@ -424,6 +428,11 @@ pub fn run(args: &Args) {
 		if mbtiles_ok(fmt, comp) {
 			kinds.push("mbtiles");
 		}
+		// lookups that answer out of order (default stream on top): in memory and over a real pmtiles file
+		if !big && !gaps && !extreme && !tall {
+			kinds.push("mem^");
+			kinds.push("pmtiles^");
+		}
 		if huge {
 			kinds = vec!["versatiles"];
 		}
@@ -566,6 +575,20 @@ pub fn run(args: &Args) {
 					run_in_world(&rt, &mut out, &mut id, &w, "C02", "S", "L0,Zn:n", &boxes_arg(&boxes));
 				}
 				run_in_world(&rt, &mut out, &mut id, &w, "C02", "G", "L0", &coords_arg(&mut rng, &specs, 2));
+			}
+			// readers whose stream is the trait default: a stream while four tasks hammer lookups on the same reader object
+			if !faulty && (kind == "pmtiles" || kind == "tar" || kind == "dir" || kind == "mem") && !huge {
+				if let Some((z, present)) = levels.iter().find(|(_, v)| v.len() >= 3) {
+					let probes: Vec<versatiles_core::types::TileCoord3> = present.iter().map(|(x, y)| versatiles_core::types::TileCoord3::new(*x, *y, *z).unwrap()).collect();
+					let (x0, x1) = (present.iter().map(|p| p.0).min().unwrap(), present.iter().map(|p| p.0).max().unwrap());
+					let (y0, y1) = (present.iter().map(|p| p.1).min().unwrap(), present.iter().map(|p| p.1).max().unwrap());
+					if (x1 - x0) as u64 * (y1 - y0) as u64 <= 4096 {
+						let b = TileBBox::new(*z, x0, y0, x1, y1).unwrap();
+						if let Ok(Ok(rd)) = catch(|| rt.block_on(async { w.reader(0).await })) {
+							stream_under_lookup_load(&rt, &mut out, rd, &b, probes, "C02", &format!("C02 S L0 {} {}", w.env_string(), show_box(&b)));
+						}
+					}
+				}
 			}
 			if !faulty && kind != "mem" {
 				// the same through the real PipelineReader (a .vpl file next to the container)
